@@ -126,7 +126,7 @@ def f32(a):
 
 
 def gen_knn(vd, rnd, tier, cases):
-    nclouds = 60 if tier == "quick" else 600
+    nclouds = 60 if tier == "quick" else 200
     reds = list(RED)
     for c in range(nclouds):
         mode = ["jitter", "uniform", "jitter", "lattice", "uniform", "far"][c % 6]
@@ -191,7 +191,7 @@ def meddist_case(vd, e, n, ks, pname, kind, extra=False):
 
 
 def gen_meddist(vd, rnd, tier, cases):
-    nclouds = 48 if tier == "quick" else 480
+    nclouds = 48 if tier == "quick" else 160
     for c in range(nclouds):
         mode = ["jitter", "lattice", "uniform", "far"][c % 4]
         n = rnd.choice([2, 3, 4, 5, 6, 8, 9, 12, 16]) if c % 12 else rnd.choice([20, 30])
@@ -285,7 +285,7 @@ def gen_mask(vd, rnd, tier, cases):
         cases.append(mask_case(vd, de, dn, md, qe.reshape(2, 4), qn.reshape(2, 4), None, "mask-345"))
     cases.append(mask_case(vd, np.array([2.5]), np.array([-7.5]), 2.0, *vd.grid_coordinates((0, 5, -10, -4), spacing=1), None,
                            "mask-docstring", scalar_data=True))
-    nl = 60 if tier == "quick" else 600
+    nl = 60 if tier == "quick" else 240
     for c in range(nl):
         scale = [1, 1, 0.125, 0.5][c % 4]
         de, dn, qe, qn = lattice_mask_inputs(rnd, scale)
@@ -304,7 +304,7 @@ def gen_mask(vd, rnd, tier, cases):
         if c % 2 and qe.size > 1:
             qe, qn = reshape2(rnd, qe, qn)
         cases.append(mask_case(vd, de, dn, md, qe, qn, pname, "mask-lattice" + ("" if pname is None else "-affine"), extra=(c % 7 == 0)))
-    nr = 40 if tier == "quick" else 400
+    nr = 40 if tier == "quick" else 130
     for c in range(nr):
         mode = ["uniform", "jitter", "far"][c % 3]
         n = rnd.randint(1, 10)
@@ -366,7 +366,7 @@ def grid_case(vd, de, dn, md, east, north, pname, dims, kind, twovars=False):
 
 
 def gen_grid(vd, rnd, tier, cases):
-    ng = 40 if tier == "quick" else 400
+    ng = 40 if tier == "quick" else 160
     dimnames = [("northing", "easting"), ("y", "x"), ("latitude", "longitude"), ("easting", "northing")]
     for c in range(ng):
         scale = [1, 0.125, 1, 0.5][c % 4]
